@@ -51,6 +51,7 @@ type BinOpts struct {
 	LogFile    string // "stdout" or a path
 	LogLevel   string
 	LogFormat  string
+	Secret     string // "" = a plain one derived from the name
 }
 
 // Instance is one running `relay serve`.
@@ -70,6 +71,9 @@ func StartBinary(bin string, o BinOpts) (*Instance, error) {
 	audience := "https://access." + o.Name + ".verif.test/aud"
 	url := "ws://127.0.0.1:" + strconv.Itoa(ps[1])
 	secret := "bin-secret-" + o.Name
+	if o.Secret != "" {
+		secret = o.Secret
+	}
 	vars := []string{"RELAY_AUDIENCE=" + audience, "RELAY_SECRET=" + secret, "RELAY_URL=" + url,
 		"RELAY_PORT_ACCESS=" + strconv.Itoa(ps[0]), "RELAY_PORT_RELAY=" + strconv.Itoa(ps[1]), "RELAY_PROFILE=false"}
 	add := func(k, v string) {
